@@ -3,6 +3,7 @@ package c12
 import (
 	"fmt"
 	"math/big"
+	"strings"
 	"testing"
 
 	"pgregory.net/rapid"
@@ -107,7 +108,9 @@ const (
 	mEven
 )
 
-func (m mode) String() string { return [...]string{"exact", "toward-zero", "toward+inf", "half-even"}[m] }
+func (m mode) String() string {
+	return [...]string{"exact", "toward-zero", "toward+inf", "half-even"}[m]
+}
 
 func round(num, den *big.Int, m mode) (*big.Int, bool) {
 	exact := ref.Exact(num, den)
@@ -291,9 +294,58 @@ func TestPropArith(t *testing.T) {
 			B = new(big.Int).Set(A)
 		} else if o.m == mEven && rapid.IntRange(0, 3).Draw(rt, "tieMode") == 0 {
 			A, B = genTie(rt, o)
+		} else if o.kind == kBigDec && (strings.HasPrefix(o.name, "Mul") || strings.HasPrefix(o.name, "Quo")) && rapid.IntRange(0, 4).Draw(rt, "boundMode") == 0 {
+			A, B = genNearBound(rt, strings.HasPrefix(o.name, "Mul"))
 		}
 		checkOp(rt, c, o, A, B, alias)
 	})
+}
+
+// genNearBound constructs two huge operands whose product (or quotient) has a bit length within two of the 1144-bit
+// bound of a BigDec, with mantissas just above a power of two, just below the next one, or random: a result that still
+// fits must be returned exactly, one that does not must fail - on either side of the bound, for every split of the bits
+// between the operands.
+func genNearBound(rt *rapid.T, isMul bool) (A, B *big.Int) {
+	shaped := func(label string, bits int) *big.Int {
+		if bits < 2 {
+			bits = 2
+		}
+		switch rapid.IntRange(0, 2).Draw(rt, label+"Mantissa") {
+		case 0: // just above 2^(bits-1)
+			v := new(big.Int).Lsh(big.NewInt(1), uint(bits-1))
+			return v.Add(v, big.NewInt(int64(rapid.IntRange(0, 1000).Draw(rt, label+"Above"))))
+		case 1: // just below 2^bits
+			v := new(big.Int).Lsh(big.NewInt(1), uint(bits))
+			return v.Sub(v, big.NewInt(int64(rapid.IntRange(1, 1000).Draw(rt, label+"Below"))))
+		default:
+			v := randBits(rt, label, bits)
+			return v.SetBit(v, bits-1, 1)
+		}
+	}
+	t := rapid.IntRange(maxDecBits-2, maxDecBits+2).Draw(rt, "resultBits")
+	j := rapid.IntRange(-1, 1).Draw(rt, "bitSlack")
+	var la, lb int
+	if isMul { // bits(A*B/1e36) ~ la + lb - 120
+		la = rapid.IntRange(125, maxDecBits).Draw(rt, "aBits")
+		lb = t + 120 - la + j
+		if lb > maxDecBits {
+			lb = maxDecBits
+		}
+	} else { // bits(A*1e36/B) ~ la - lb + 120
+		lb = rapid.IntRange(2, 118).Draw(rt, "bBits")
+		la = t - 120 + lb + j
+		if la > maxDecBits {
+			la = maxDecBits
+		}
+	}
+	A, B = shaped("a", la), shaped("b", lb)
+	if rapid.Bool().Draw(rt, "aNeg") {
+		A.Neg(A)
+	}
+	if rapid.Bool().Draw(rt, "bNeg") {
+		B.Neg(B)
+	}
+	return A, B
 }
 
 // genTie constructs operands whose exact result lies exactly on a rounding tie (then nudges it by
